@@ -118,22 +118,36 @@ module_plan('C11', 1000, 20000,
 
 
 # ---- C20 -----------------------------------------------------------------------------------------------------------
-import s_rst
+import s_rst, s_rstfull
 
 
 def _c20_run(tier, seed, out, drv):
     s_rst.rst_suite(seed, 1500 if tier == 'quick' else 40000, out, drv)
+    s_rstfull.full_suite(seed, 1500 if tier == 'quick' else 40000, out, drv)
+    s_rstfull.write_target_suite(out, drv)
 
 
 def _c20_search(tier, seed, out, drv, dis):
     s_rst.rst_suite(seed + 7919, 6000 if tier == 'quick' else 60000, out, drv, max_ops=40)
+    s_rstfull.full_suite(seed + 7919, 6000 if tier == 'quick' else 60000, out, drv, max_ops=40)
 
 
-PLANS['C20'] = dict(run=_c20_run, search=_c20_search, shrink=s_rst.shrink, replay=s_rst.replay, replay_kind='rst-history',
+def _c20_shrink(v, drv): return (s_rstfull if v.get('suite') == 'rst-full' else s_rst).shrink(v, drv)
+def _c20_replay(v, drv): return (s_rstfull if v.get('suite') == 'rst-full' else s_rst).replay(v, drv)
+
+
+PLANS['C20'] = dict(run=_c20_run, search=_c20_search, shrink=_c20_shrink, replay=_c20_replay, replay_kind='rst-history',
                     rule="random API histories over handle paths (text incl. multi-line and leading-space paragraphs, field, bulleted/"
                          "enumerated list, directive, option, title change on writer and directives, clear, serialise), nesting <= 5; "
-                         "non-trivial = >= 4 operations and at least one nested directive; purity = pickle equality around each to_text()",
-                    assumptions=["sections, doctests and simple tables of the writer API are outside the property's quantifier and not modelled",
+                         "non-trivial = >= 4 operations and at least one nested directive (or, in the full-API suite, at least one section); "
+                         "purity = pickle equality around each to_text(). Full-API suite (RstFull.lean): the same plus sections on writers, "
+                         "sections and directives (heading character by section level; header lists of 1-10 entries incl. repeated and "
+                         "multi-character ones; levels beyond the list raise), doctests, simple tables (also ragged/empty ones and wrong "
+                         "heading counts, which the constructor rejects); 'core' stream (inside the quantifier) judged by a reference "
+                         "renderer, 'ext' stream by purity, order of uniquely marked elements and the frame of every section title",
+                    assumptions=["the text of doctests and simple tables, and sections opened below a directive (reST has none; the nested writer "
+                                 "starts at indent 0 again), are modelled and compared but are outside the property's quantifier: a difference "
+                                 "there breaks the correspondence, it is not reported as a failing input",
                                  "purity and repeatability of the Python object are established by the correspondence (pickle equality), not by a theorem"])
 
 
